@@ -395,9 +395,9 @@ func (f *Frame) appendOp(x *ssa.Call, c *ssa.CallCommon, pos string) Val {
 		nw := s.freshConst(qsymBase("H:"+key), as)
 		// other objects unchanged
 		s.fact(fmt.Sprintf("(forall ((r Int)) (! (=> (not (= r %s)) (= (select %s r) (select %s r))) :pattern ((select %s r))))", rRef, nw, old, nw))
-		// the result's prefix equals s
-		s.fact(fmt.Sprintf("(forall ((j Int)) (! (=> (and (<= 0 j) (< j %s)) (= (select (select %s %s) (+ %s j)) (select (select %s %s) (+ %s j)))) :pattern ((select (select %s %s) (+ %s j)))))",
-			sLen, nw, rRef, rOff, old, sRef, sOff, nw, rRef, rOff))
+		// the result's prefix equals s (quantified over the absolute index so that any read of the new array triggers it)
+		s.fact(fmt.Sprintf("(forall ((i Int)) (! (=> (and (<= %s i) (< i (+ %s %s))) (= (select (select %s %s) i) (select (select %s %s) (+ %s (- i %s))))) :pattern ((select (select %s %s) i))))",
+			rOff, rOff, sLen, nw, rRef, old, sRef, sOff, rOff, nw, rRef))
 		// appended elements
 		if k, ok := smallConst(n); ok {
 			for j := 0; j < k; j++ {
@@ -405,8 +405,8 @@ func (f *Frame) appendOp(x *ssa.Call, c *ssa.CallCommon, pos string) Val {
 				s.fact(eq(app("select", app("select", nw, rRef), plus(plus(rOff, sLen), js)), app("select", app("select", old, tRef), plus(tOff, js))))
 			}
 		} else {
-			s.fact(fmt.Sprintf("(forall ((j Int)) (! (=> (and (<= 0 j) (< j %s)) (= (select (select %s %s) (+ %s %s j)) (select (select %s %s) (+ %s j)))) :pattern ((select (select %s %s) (+ %s %s j)))))",
-				n, nw, rRef, rOff, sLen, old, tRef, tOff, nw, rRef, rOff, sLen))
+			s.fact(fmt.Sprintf("(forall ((i Int)) (! (=> (and (<= (+ %s %s) i) (< i (+ %s %s %s))) (= (select (select %s %s) i) (select (select %s %s) (+ %s (- i (+ %s %s)))))) :pattern ((select (select %s %s) i))))",
+				rOff, sLen, rOff, sLen, n, nw, rRef, old, tRef, tOff, rOff, sLen, nw, rRef))
 		}
 		// in place: cells of the same array outside the appended window are unchanged
 		s.fact(implies(inplace, fmt.Sprintf("(forall ((j Int)) (! (=> (or (< j (+ %s %s)) (>= j (+ %s %s))) (= (select (select %s %s) j) (select (select %s %s) j))) :pattern ((select (select %s %s) j))))",
